@@ -48,7 +48,7 @@ def run(chk):
     chk.validate('float', 'Trace_Align', 'Trace_Align.cfg', recs, driver='align', jobs=12)
     goods = [r for r in recs if r['kind'] == 'apply' and r['exc'] == '' and r['ref']
             and r['mapping'][0][0] != r['mapping'][1][0]]
-    good = goods[0]
+    good = goods[0] if goods else None
 
     def corrupt(r):
         r['out'][0][0], r['out'][1][0] = r['out'][1][0], r['out'][0][0]
